@@ -663,7 +663,7 @@ func (e *Enc) encodeInstr(fr *frame, b *ssa.BasicBlock, idx int, in ssa.Instruct
 		pt := x.Addr.Type().Underlying().(*types.Pointer).Elem()
 		if addr.Loc != nil {
 			if addr.Loc.Comp.Kind == "elems" && len(addr.Loc.Path) == 0 && len(e.P.reg.ElemInvs) > 0 {
-				if inv := e.elemValueInv(pt, e.asTerm(v)); inv != "true" {
+				if inv := e.elemValueInv(st, pt, e.asTerm(v)); inv != "true" {
 					e.oblige(st, "elem-inv", e.anchor(x.Pos(), "store element"), inv, x.Pos())
 				}
 			}
@@ -910,7 +910,7 @@ func (e *Enc) encodeLookup(st *bstate, x *ssa.Lookup) {
 		r := e.fresh("lookup", e.W.sortOf(t.Elem()))
 		e.assert(sEq(r, val))
 		e.assert(e.typeInv(r, t.Elem()))
-		e.assert(sImp(in, e.mapValueInv(t, k, r)))
+		e.assert(sImp(in, e.mapValueInv(st, t, k, r)))
 		e.assumeAllocated(st, Val{T: r, Typ: t.Elem()})
 		if x.CommaOk {
 			e.setVal(x, Val{Tup: []Val{{T: r, Typ: t.Elem()}, {T: in, Typ: types.Typ[types.Bool]}}})
@@ -926,7 +926,7 @@ func (e *Enc) encodeMapUpdate(st *bstate, x *ssa.MapUpdate) {
 	v := e.asTerm(e.val(x.Value))
 	mt := x.Map.Type().Underlying().(*types.Map)
 	e.oblige(st, "nil-map-write", e.anchor(x.Pos(), "map update"), sNot(sEq(m, "0")), x.Pos())
-	if inv := e.mapValueInv(mt, k, v); inv != "true" {
+	if inv := e.mapValueInv(st, mt, k, v); inv != "true" {
 		e.oblige(st, "map-inv", e.anchor(x.Pos(), "map update"), inv, x.Pos())
 	}
 	d, vc, l := e.W.mapComps(mt)
@@ -965,7 +965,7 @@ func (e *Enc) encodeUnOp(fr *frame, st *bstate, x *ssa.UnOp) {
 		e.assert(sEq(r, t))
 		e.assert(e.typeInv(r, pt))
 		if elemInv != "" {
-			e.assert(e.elemValueInv(pt, r))
+			e.assert(e.elemValueInv(st, pt, r))
 		}
 		e.assumeAllocated(st, Val{T: r, Typ: pt})
 		e.setVal(x, Val{T: r})
@@ -1615,7 +1615,7 @@ func (e *Enc) encodeNext(fr *frame, st *bstate, x *ssa.Next) {
 	}
 	vv := Val{T: v, Typ: mt.Elem()}
 	e.assumeAllocated(st, vv)
-	e.assume(st.reach, sImp(okv, e.mapValueInv(mt, k, v)))
+	e.assume(st.reach, sImp(okv, e.mapValueInv(st, mt, k, v)))
 	e.setVal(x, Val{Tup: []Val{{T: okv, Typ: types.Typ[types.Bool]}, {T: k, Typ: mt.Key()}, vv}})
 }
 
@@ -1678,7 +1678,7 @@ func trimPkg(s string) string {
 
 // mapValueInv returns the conjunction of the declared value invariants of map type mt
 // instantiated at key k and value v.
-func (e *Enc) mapValueInv(mt *types.Map, k, v string) string {
+func (e *Enc) mapValueInv(st *bstate, mt *types.Map, k, v string) string {
 	var cs []string
 	for _, mi := range e.P.reg.MapInvs {
 		pkg := e.P.tpkgs[mi.Pkg]
@@ -1693,7 +1693,7 @@ func (e *Enc) mapValueInv(mt *types.Map, k, v string) string {
 		if !types.Identical(t.Underlying(), mt) {
 			continue
 		}
-		env := e.newSpecEnv(nil, nil)
+		env := e.newSpecEnv(nil, st)
 		env.pkg = pkg
 		env.binders["k"] = SVal{T: k, Typ: mt.Key(), Sort: e.W.sortOf(mt.Key())}
 		env.binders["v"] = SVal{T: v, Typ: mt.Elem(), Sort: e.W.sortOf(mt.Elem())}
@@ -1744,7 +1744,7 @@ func (e *Enc) localSlicePhi(li *loopInfo, p *ssa.Phi) bool {
 }
 
 // elemValueInv: declared invariants on the elements of slices with element type el.
-func (e *Enc) elemValueInv(el types.Type, v string) string {
+func (e *Enc) elemValueInv(st *bstate, el types.Type, v string) string {
 	var cs []string
 	for _, mi := range e.P.reg.ElemInvs {
 		pkg := e.P.tpkgs[mi.Pkg]
@@ -1756,11 +1756,11 @@ func (e *Enc) elemValueInv(el types.Type, v string) string {
 			e.errors = append(e.errors, fmt.Sprintf("%s: elemvalues: %v", mi.Src, err))
 			continue
 		}
-		st, ok := t.Underlying().(*types.Slice)
-		if !ok || !types.Identical(st.Elem(), el) {
+		slt, ok := t.Underlying().(*types.Slice)
+		if !ok || !types.Identical(slt.Elem(), el) {
 			continue
 		}
-		env := e.newSpecEnv(nil, nil)
+		env := e.newSpecEnv(nil, st)
 		env.pkg = pkg
 		env.binders["v"] = SVal{T: v, Typ: el, Sort: e.W.sortOf(el)}
 		f, err := env.formula(mi.Expr)
